@@ -224,6 +224,22 @@ CHECKS['C04'] = dict(
          'summary of the leaf evaluation. Leaf scripts are 2 symbolic bytes, pairwise different. That no uncommitted (script, sibling) pair hashes '
          'to the root is the cryptographic assumption of the construction and outside the claim.',
     technique=TECH)
+CHECKS['C06'] = dict(
+    text='A reference semantics written in the check from docs.md / language_spec.md (operand orders as pinned by the unit tests) is evaluated on the '
+         'same symbolic pre-state as the real instruction. (a) 43 stack / tape / cache / integer / bitwise / hash instructions, one step each from '
+         'stacks of 0..4 symbolic items and symbolic tape operands: error exactly when documented, items consumed and produced, their values '
+         '(integers as unbounded z3 Ints with the minimal-encoding check; division / modulus with the divisor pinned per job), operands consumed, '
+         'byte-keyed cache effect, rest of the stack untouched. (b) float add / subtract / divide / compare in z3 FloatingPoint (binary64 arithmetic, '
+         'binary32 result) for <= 2 operands. (c) IF / IF_ELSE / TRY_EXCEPT / LOOP / DEF / CALL / EVAL with summarised bodies: which body bytes run, '
+         'on which stack, error propagation, transparency of IF / TRY / EXCEPT to RETURN, RETURN inside LOOP / CALL / EVAL ends only that construct '
+         'with no residue, EVAL gets copies of definitions and flags. (d) dispatch: every opcode byte runs exactly the instruction docs.md numbers.',
+    design_ref='DESIGN.md section 4 C06',
+    note='Trusted: SX engine (witness replay of every fifth path against the real package; counterexamples are re-run pinned and compared with the '
+         'real package), z3 incl. its FloatingPoint theory, the reference written in checks/c06.py, hash / log2 / token_bytes stubs, P2 summaries. '
+         'Not covered here and decided by other checks against their own references: signature, adapter, point / scalar, timestamp / epoch, flag, '
+         'MERKLEVAL / TAPROOT, CHECK_TRANSFER / CHECK_TEMPLATE instructions; float modulus and the values of INT_TO_FLOAT / FLOAT_TO_INT are outside '
+         'the claim (z3 does not decide them within reach).',
+    technique=TECH)
 NOT_APPLICABLE = {}
 NOTES = ('Exit codes of every check: 0 held on everything explored; 1 + VIOLATION line for a counterexample that was '
          'replayed on the real package and is not a listed known finding; 2 harness error / unsupported construct / '
